@@ -216,7 +216,7 @@ func (f *Frame) enterLoop(li *loopInfo, b *ssa.BasicBlock) {
 			limit := tb.BVU(32, uint64(freshBase+u.objCtr+1))
 			f.cur.mem = f.cur.mem.clone()
 			f.havocMaps(&f.cur.mem, limit)
-			f.cur.mem.m[mapLenKey] = u.mc.HavocObjs(f.cur.mem.m[mapLenKey], limit, u.mc.NewBase("lpml", BV64, nil))
+			f.cur.mem.m[mapLenKey] = u.mc.HavocObjs(f.cur.mem.m[mapLenKey], limit, u.mc.NewBase("lpml", BV64, f.havocBound()))
 		}
 		if all {
 			// private locals keep their content across a havoc of everything (nobody else can
@@ -251,7 +251,7 @@ func (f *Frame) enterLoop(li *loopInfo, b *ssa.BasicBlock) {
 			f.cur.mem = f.cur.mem.clone()
 			for _, s := range sorts {
 				k := s.Key()
-				f.cur.mem.m[k] = u.mc.HavocObjs(f.cur.mem.m[k], limit, u.mc.NewBase("lp", s, nil))
+				f.cur.mem.m[k] = u.mc.HavocObjs(f.cur.mem.m[k], limit, u.mc.NewBase("lp", s, f.havocBound()))
 			}
 		}
 	}
